@@ -112,7 +112,8 @@ def gen_cases(spec):
                  "x := RUN f WITH END", "PROGRAM f DO x0 := 5 END x := RUN f WITH END", "PROGRAM f IN a, a OUT a DO a := a END x := RUN f WITH 1, 2 END",
                  "PROGRAM", "PROGRAM f", "PROGRAM f IN", "PROGRAM f IN a OUT", "PROGRAM f DO", "PROGRAM f DO END", "LOOP", "LOOP x DO END", "WHILE x != 0 DO",
                  "IF x = 1 THEN GOTO", "GOTO", "x :", "x : :", ": x", "x := ", "x := 99999999999999999999999", "x := y - 99999999999999999999999", "<P>", "$7", "#0",
-                 "x := #0", "x := $0", "DEFINE PRIO 99999999999 a AS b END DEFINE a", "DEFINE a AS $99999999999 END DEFINE a", "STOP STOP", "x := 1 x := 2",
+                 "x := #0", "x := $0", "DEFINE PRIO 99999999999 a AS b END DEFINE a", "DEFINE a AS $99999999999 END DEFINE a", "DEFINE f <ID> AS $4294967296 := 1 END DEFINE f x", "DEFINE f <ID> <INT> AS $4294967297 END DEFINE x := f y 3",
+                 "DEFINE PRIO 4294967296 f <V> AS $0 END DEFINE x := f 1", "DEFINE f <V> AS $8589934592 END DEFINE x := f 1", "STOP STOP", "x := 1 x := 2",
                  "x := 1 PROGRAM f DO STOP END", "\x00", "x := 1\x00; y := 2", "\xff\xfe", "x := \"a\"", "\"", "\"unterminated"]
         names = ["main", "a", "b", "__standards__", "-", "", "none", "#root"]
         for _ in range(500):
